@@ -642,6 +642,6 @@ def run(case):
 
 
 SUBS = {
-    'omd': Sub('omd', strat, run, quick=10000, thorough=320000, doc='OMD histories vs list-of-pairs model',
+    'omd': Sub('omd', strat, run, quick=7000, thorough=320000, doc='OMD histories vs list-of-pairs model',
                quick_shards=8),
 }
